@@ -686,7 +686,7 @@ def c14(ctx):
         if avail < 12:
             stress["skipped"] = "less than 12 GB of memory available (%d GB)" % avail
             return
-        p = subprocess.run(["timeout", "900", binp, "stress-prefilter-counter"], stdout=subprocess.PIPE, stderr=subprocess.STDOUT, text=True)
+        p = subprocess.run(["timeout", "1800", binp, "stress-prefilter-counter"], stdout=subprocess.PIPE, stderr=subprocess.STDOUT, text=True)
         stress["out"] = p.stdout[-400:]
         stress["rc"] = p.returncode
 
@@ -727,6 +727,9 @@ def c14(ctx):
     replay_cmd(ctx, binp, "replay-guard", head, "guard_ppx", classes, extra=["--lifts", 1])
     miri_vehicles(ctx, [gvec, svec, mvec], classes, [])
     st_thread.join()
+    # a time-out (124) or an out-of-memory kill (SIGKILL) of the 5.4 GB probe says nothing about the code under test
+    if "skipped" not in stress and stress.get("rc") in (124, 137, -9) and "Err(" not in stress.get("out", ""):
+        stress["skipped"] = "the probe was stopped from outside (rc %s: time-out or out of memory on a loaded machine)" % stress.get("rc")
     if "skipped" in stress:
         ctx.vehicles_skipped.append({"vehicle": "prefilter counter stress (5.4 GB haystack)", "reason": stress["skipped"]})
     elif "Err(" in stress.get("out", "") or stress.get("rc") not in (0,):
@@ -1037,8 +1040,10 @@ def replay(prop, path, seed):
     c = obj.get("ctx") or {}
     binp = C.build_harness()
     if str(c.get("command", "")).endswith("stress-prefilter-counter"):
-        p = subprocess.run(["timeout", "900", binp, "stress-prefilter-counter"], stdout=subprocess.PIPE, stderr=subprocess.STDOUT, text=True)
+        p = subprocess.run(["timeout", "1800", binp, "stress-prefilter-counter"], stdout=subprocess.PIPE, stderr=subprocess.STDOUT, text=True)
         print(p.stdout[-300:])
+        if p.returncode in (124, 137, -9) and "Err(" not in p.stdout:
+            raise ToolError("the 5.4 GB probe was stopped from outside (rc %s: time-out or out of memory)" % p.returncode)
         if "Err(" in p.stdout or p.returncode != 0:
             print("VIOLATION property=%s replay=%s" % (prop, path))
             return 1
@@ -1052,6 +1057,8 @@ def replay(prop, path, seed):
         env.update(c.get("env") or {})
         p = subprocess.run(["timeout", "1800", binp] + c["harness_args"] + ["--out", os.path.join(ctx.dir, "again.json"), "--seed", str(c.get("seed", seed))], env=env, stdout=subprocess.PIPE, stderr=subprocess.PIPE, text=True)
         print(json.dumps({"rc": p.returncode, "stderr_tail": p.stderr[-400:]}))
+        if p.returncode in (124, 137, -9):
+            raise ToolError("the harness was stopped from outside (rc %s: time-out or out of memory)" % p.returncode)
         if p.returncode != 0:
             print("VIOLATION property=%s replay=%s" % (prop, path))
             return 1
